@@ -493,9 +493,12 @@ def run(ch, idx, tier):
                 # with no uncertainty entered anywhere a sampled run is the plain run (serial path, 2 samples)
                 if edited.get(c["k"]) or c["name"] in ("uncertainty", "uncertainty_low") or (_CORPUS[c["name"]].meta.get("generated_spec") or {}).get("uncertainty"):
                     continue
+                # (the equality of a sampled run without uncertainty and the plain run is C17's statement: here the call
+                # only acts as one more run sharing the process - its inputs must stay unchanged, its outputs are counted)
                 rs = P.run_sampled_sims(parset, progset=progset, progset_instructions=instr, n_samples=2)
                 for r_ in rs:
-                    check_result(c, r_[0], "run_sampled_sims(no uncertainty)")
+                    if digest_result(r_[0]) != c["ref"]:
+                        bump("observed_beyond_property:sampled_run_without_uncertainty_differs")
             elif op == "scenario_run":
                 R = c["scen"].run(P, P.parsets[0], store_results=False)
                 check_result(c, R, "Scenario.run")
